@@ -550,9 +550,14 @@ class PortNamespace(collections.abc.MutableMapping, Port):
         namespace_options = {} if namespace_options is None else dict(namespace_options)
 
         # Overload mutable attributes of PortNamespace unless overridden by value in namespace_options
+        # (a property taken over from the source is copied: a mutable one, such as a default that is a dictionary, must not be
+        # shared between the two namespaces)
         for attr in dir(port_namespace):
             if is_mutable_property(PortNamespace, attr):
-                setattr(self, attr, namespace_options.pop(attr, getattr(port_namespace, attr)))
+                if attr in namespace_options:
+                    setattr(self, attr, namespace_options.pop(attr))
+                else:
+                    setattr(self, attr, copy.deepcopy(getattr(port_namespace, attr)))
 
         if namespace_options:
             raise ValueError(
